@@ -239,6 +239,13 @@ class TermBuilder(object):
         if isinstance(e, ast.UnaryOp) and isinstance(e.op, ast.Not):
             inner = self._lit(e.operand)
             return None if inner is None else oracle.negate(inner)
+        if isinstance(e, ast.Call) and not e.args and not e.keywords and isinstance(e.func, ast.Attribute):
+            # `if self._isLeader():` -- an argument-less pure getter returning a comparison stands for that comparison
+            r = self.P.resolve_call(self.func, e)
+            if r.kind == 'method' and len(r.targets) == 1 and self.P.is_pure_getter(r.targets[0]) and len(r.targets[0].params) == 1:
+                ret = [n for n in ast.walk(r.targets[0].node) if isinstance(n, ast.Return)][0].value
+                if isinstance(ret, (ast.Compare, ast.BoolOp, ast.UnaryOp)) and not isinstance(ret, ast.BoolOp):
+                    return TermBuilder(self.P, r.targets[0])._lit(ret)
         if isinstance(e, ast.Call) and isinstance(e.func, ast.Name) and e.func.id == 'isinstance' and len(e.args) == 2:
             t = self.term(e.args[0])
             if t.volatile:
@@ -352,6 +359,8 @@ class Effects(object):
                     self.target_syms(t, w)
             for c in _calls(a):
                 self.call_writes(c, w)
+            if isinstance(a, ast.AnnAssign) and a.value is not None:
+                a = ast.Assign(targets=[a.target], value=a.value)
             if isinstance(a, ast.Assign):
                 rhs = tb.term(a.value)
                 if not rhs.volatile:
